@@ -140,8 +140,12 @@ def handle : Handler := fun j a => do
     | some s =>
       let nodes := snapNodes s
       fr.filterMap fun h => (nodes.find? (·.host == h)).map fun n =>
-        -- an unknown lag (NULL) is the code's own 99999999
-        { host := h, gtid := totalOf n, lag := n.lagS.getD 99999999, prio := prioOf h }
+        -- an unknown lag (NULL) is the code's own 99999999; the lag is the one the host reported when its position was
+        -- read (`pos_lag`), which the snapshot taken at the lock re-check only approximates
+        let lagNow : Option Int := match (jOpt j "pos_lag").bind fun pl => pl.getObjVal? h |>.toOption with
+          | some v => if v.isNull then none else some (numToInt v 0)
+          | none => n.lagS
+        { host := h, gtid := totalOf n, lag := lagNow.getD 99999999, prio := prioOf h }
     | none => []
   -- second view: reachability at the end approximates the view taken after catch-up (only used for targets)
   let afterLock2 := obsAll.dropWhile fun o => !(o.s == "lockCheck" && o.n == 2)
@@ -301,8 +305,8 @@ def handle : Handler := fun j a => do
         | _, _ => pure ()
   let promotedOk := obs.any fun o => o.s == "setWritable" && o.ok
   -- C07 (re-runnable from what the procedure leaves behind): the list the procedure publishes at promotion is computed from
-  -- the cluster as it is THEN — in a run without an injected fault every replica that follows the new master with both
-  -- threads running is in it (the successor of a manager that dies right after judges the request against this list)
+  -- the cluster as it is THEN — in a run without an injected fault every member of the old list that follows the new master
+  -- with both threads running is in it (the successor of a manager that dies right after judges the request against this list)
   let noFault := match jOpt j "fault" with | some (.obj kv) => kv.toList.isEmpty | _ => true
   -- (not in async mode: a node promoted under the allowed-lag exception rightly keeps replicas that are ahead of it out)
   if noFault && !cfg.async && promotedOk && (obs.any fun o => o.s == "setMasterKey" && o.ok) then
@@ -311,7 +315,8 @@ def handle : Handler := fun j a => do
     let hosts := (jStrList j "hosts").toOption.getD []
     for nd in ((jOpt j "final").bind fun n => n.getArr?.toOption).getD #[] do
       let h := jStrOr nd "host" ""
-      if hosts.contains h && h != nmH && jBoolOr nd "alive" false && !jBoolOr nd "hang" false && jBoolOr nd "is_replica" false &&
+      -- (members of the list the procedure started from: a host outside it joins by `updateActiveNodes`' own rules)
+      if hosts.contains h && active.contains h && h != nmH && jBoolOr nd "alive" false && !jBoolOr nd "hang" false && jBoolOr nd "is_replica" false &&
           jStrOr nd "source" "" == nmH && jBoolOr nd "io" false && jBoolOr nd "sql" false && !activeAfter.contains h then
         a := a.violationSig "C07:list-published-at-promotion-omits-a-replica-that-follows-the-new-master" s!"{h} not in {activeAfter}; {j.compress}"
   -- C19: the speed-up phase has ended, with settings restored, before the freeze — nothing the procedure started may act
